@@ -549,6 +549,13 @@ Theorem C01_exec_total_terminating :
 Proof. exact ct_exec_total_terminating. Qed.
 Print Assumptions C01_exec_total_terminating.
 
+(* the counter-range hypothesis read separately on the tree and on the text: the text length enters term_fuel
+   additively (leg c01-frag reports term_fuel_n 0 t, the bound for the empty text, for every exported tree) *)
+Theorem C01_term_fuel_in_range :
+  forall (e : env) t, Z.of_nat (term_fuel_n 0 t) + tlen e <= INF -> Z.of_nat (term_fuel e t) <= INF.
+Proof. exact tm_fuel_in_range. Qed.
+Print Assumptions C01_term_fuel_in_range.
+
 (* non-vacuity (vm_compute): the bound on the nullable loop ( a* )* / "aab" (fuel 6, Fuel with 3 less), on the
    counted loop (?:ab){2,3} / "ababab" (fuel 11), on a right-to-left lazy loop inside a lookbehind (fuel 8);
    the a^n b^n program with balancing groups meets term_ok with fuel 10 *)
